@@ -725,6 +725,12 @@ func (n *ReconcileNode) addIP(ctx context.Context, unSucceedPods map[string]*Pod
 	ctx, span := n.tracer.Start(ctx, "addIP")
 	defer span.End()
 
+	// a pod that reports an ip which is not available any more can only get that ip back, a new ip does
+	// not help it. Counting it as demand adds ip in every reconcile which adjustPool releases again.
+	unSucceedPods = lo.PickBy(unSucceedPods, func(key string, value *PodRequest) bool {
+		return !(value.RequireIPv4 && value.IPv4 != "" && value.ipv4Ref == nil) &&
+			!(value.RequireIPv6 && value.IPv6 != "" && value.ipv6Ref == nil)
+	})
 	normalPods := lo.PickBy(unSucceedPods, func(key string, value *PodRequest) bool {
 		return !value.RequireERDMA
 	})
